@@ -131,6 +131,8 @@ def out {α} (f : α → String) : Except BErr α → String
   `pct <dim> <ext>`                             → `percentage`
   `abs <box-sizing> pa pb ba bb size min max`   → `adjust_box_sizing` on one axis: `size min max`
   `rp <isPage> <style> cbW cbH`                 → `resolve_percentages`: the 18 used values
+  `rpc <isPage> <collapse> pt pr pb pl <style> cbW cbH` → `resolve_percentages` with pre-set collapsed borders
+  `rpos l r t b cbW cbH` / `radius rx ry removed bw bh` → `resolve_position_percentages`, one corner of `resolve_radii_percentages`
   `blw <cb> <abox>` / `blwmm <cb> <abox>`       → `block_level_width` without / with min-max
   `pwh cb <abox>` / `pw cb <abox>` / `ph cb <abox>` → `page_width_or_height`, `page_width`, `page_height`
   `idw <abox>` / `idh <abox>`                   → the two decorators around a function that does nothing
@@ -153,6 +155,18 @@ def handle (cmd : String) (args : List Sx) : Option String :=
     pure (out (fun (s, m, x) => s!"{showLen s} {showLen m} {x.render}") r)
   | "rp", [pg, st, cbW, cbH] => do
     pure (out showUsed (resolvePercentages (← pg.bool?) (← style? st) (← cbW.rat?) (← cbH.len?)))
+  | "rpc", [pg, col, pt, pr, pb, pl, st, cbW, cbH] => do
+    let opt : Sx → Option (Option Rat) := fun x => match x with
+      | .atom "none" => some none
+      | x => x.rat?.map some
+    pure (out showUsed (resolvePercentagesCollapse (← pg.bool?) (← col.bool?) (← opt pt) (← opt pr) (← opt pb)
+      (← opt pl) (← style? st) (← cbW.rat?) (← cbH.len?)))
+  | "rpos", [l, r, t, b, cbW, cbH] => do
+    pure (out (fun (l, r, t, b) => s!"{showLen l} {showLen r} {showLen t} {showLen b}")
+      (resolvePosition (← dimQ? l) (← dimQ? r) (← dimQ? t) (← dimQ? b) (← cbW.rat?) (← cbH.rat?)))
+  | "radius", [rx, ry, rem, bw, bh] => do
+    pure (out (fun (x, y) => s!"{showRat x} {showRat y}")
+      (resolveRadius (← dimQ? rx) (← dimQ? ry) (← rem.bool?) (← bw.rat?) (← bh.rat?)))
   | "blw", [cb, b] => do
     pure (showABox (blockLevelWidth (← cb? cb) (← abox? b)))
   | "blwmm", [cb, b] => do
